@@ -7,7 +7,8 @@ Stage A: TLC runs the small-step reader machine of Qos.tla (rules and descriptio
          law and "unknown identifier => error"; liveness on a smaller tree.
 Stage B: TLC prints every case with its single-octet replacements; the driver builds the real structs, marshals,
          unmarshals the form, every prefix and every replacement; plus seeded random values / octets / edits.
-Stage C: every observation is judged by TLC (Trace_C15) against QosGrammar."""
+Stage C: every observation is judged by TLC (Trace_C15) against QosGrammar.
+Added after seeded round 4: results of a round trip are held while a perturbed value goes through marshal / parse / marshal."""
 import json, os, sys
 from concurrent.futures import ThreadPoolExecutor
 sys.path.insert(0, os.path.dirname(os.path.dirname(os.path.abspath(__file__))))
